@@ -248,6 +248,7 @@ pub fn judge(case: &Case, tag: &str, stats: &mut Stats) -> (Vec<(String, String,
     let out = run_cli(case, &scratch.0);
     stats.inc("cli_processes");
     stats.inc(&format!("fired:stdout_{:?}", case.stdout));
+    stats.fold_str(&format!("{:?} {:?} {} {}", out.code, out.signal, vcommon::fnv64(&out.stdout), vcommon::fnv64(&out.stderr)));
     let mut fails = vec![];
     let sig = format!(
         "stdout={:?} inputs={} all_ok={} style={} precision={} load_path={}",
